@@ -16,13 +16,16 @@ MANIFEST = {
         "technique": "Lean 4 proof (inductive invariants over all schedules of interleaving models of Mutex/Semaphore/Signal/"
                      "Monitor/Thread over an assumed POSIX layer, any number of threads) + controlled-scheduler correspondence "
                      "(real sources over a simulated POSIX layer, identical schedules replayed on the model)",
-        "text": "16 theorems over every reachable state of the Lean transition systems (a schedule is the universally quantified list "
+        "text": "22 theorems: safety over every reachable state of the Lean transition systems (a schedule is the universally quantified list "
                 "of (thread, action) choices; spurious wake-ups, EINTR, time-outs and clock ticks at any moment; unboundedly many "
                 "threads): mutex_exclusive_reentrant, trylock_nonblocking_succeeds_when_free, sem_conservation, "
                 "signal_true_only_if_set_since_reset, signal_no_waiter_stuck_while_set, signal_set_releases_all_current_waiters, "
                 "signal_mutex_holder_can_step, monitor_waits_le_sets, monitor_set_after_take_releases_a_waiter, deadline_exact, "
-                "deadline_record, timed_false_only_after_deadline_{signal,monitor,semaphore}, join_returns_result, "
-                "driver_stays_within_model; none partial.  The models are tied to the current sources on every run: the unmodified "
+                "deadline_record, timed_false_only_after_deadline_{signal,monitor,semaphore}, join_returns_result, Thr.finished_stable, "
+                "thread_dtor_waits_and_failed_start_is_clean, driver_stays_within_model; liveness over infinite runs: "
+                "sem_waiter_eventually_returns (weak fairness), signal_waiter_eventually_returns and "
+                "monitor_set_eventually_releases_a_waiter (weak fairness + starvation-free mutex [+ clients release the monitor]); "
+                "whatif_signal_consumed_by_timed_out_waiter_loses_a_wakeup (a what-if POSIX variant, not the assumed one); none partial.  The models are tied to the current sources on every run: the unmodified "
                 "Mutex/Semaphore/Signal/Monitor/Thread.cpp are compiled against a simulated POSIX layer (-include shim) and driven by "
                 "a controlled scheduler; all schedules of generated 2-4 thread scenarios up to N scheduling points (every candidate "
                 "incl. spurious wake-up / EINTR / time-out / clock tick at each point), all schedules with a bounded number of "
@@ -33,11 +36,12 @@ MANIFEST = {
         "note": "ASSUMED, not verified: the POSIX semantics of lean/Nstd/Sync/Posix.lean = harness/sync/sched.cpp (recursive/default "
                 "mutex, condition variable with spurious wake-ups, signal wakes exactly one chosen waiter, timed-out waiter does not "
                 "consume a signal, semaphore with EINTR, create/join, monotone virtual clock; no CLOCK_REALTIME jumps, no integer "
-                "overflow, time-outs >= 0, sem_timedwait never ENOSYS, pthread_create succeeds); glibc/kernel are not verified.  "
+                "overflow, time-outs >= 0, sem_timedwait never ENOSYS, pthread_create fails at most a budgeted number of times); glibc/kernel are not verified.  "
                 "One atomic step = one POSIX call + the library code up to the next one: the `signaled` flags are only accessed under "
                 "the internal mutex (by inspection; data races are not detectable by a baton scheduler).  Clients respect the API "
-                "preconditions (unlock / Monitor::wait by the holder, one user per Thread object).  Liveness is stated as enabledness "
-                "of the next step, not as termination under fairness.  The hand translation into Model.lean is validated by the "
+                "preconditions (unlock / Monitor::wait by the holder, one user per Thread object).  Liveness is proved under weak fairness of every thread plus a "
+                "starvation-free mutex (weak fairness alone does not exclude starvation at the mutex).  pthread_create failure and "
+                "~Thread are modelled and driven on both sides.  The hand translation into Model.lean is validated by the "
                 "correspondence run, not proved.  The model mirrors Signal::set as repaired by fixes/sync/0001 (broadcast before "
                 "unlock).  The stress run on real pthreads (harness/sync_stress.cpp) is a test.",
         "design_ref": "DESIGN.md 3/C11, docs/sync.md",
@@ -680,8 +684,9 @@ def check(ctx):
     ctx.assumptions += [
         "POSIX semantics as written in lean/Nstd/Sync/Posix.lean and implemented by harness/sync/sched.cpp (glibc / kernel are NOT verified): "
         "recursive and default mutexes, condition variables with spurious wake-ups, pthread_cond_signal wakes one waiter if any, a timed-out "
-        "waiter does not consume a signal, counting semaphore with EINTR, pthread_create succeeds, join yields the function's result",
+        "waiter does not consume a signal, counting semaphore with EINTR, pthread_create may fail (budgeted), join yields the function's result",
         "monotone virtual clock: no CLOCK_REALTIME jumps; time-outs are non-negative; no overflow of time_t/long; sem_timedwait never reports ENOSYS",
+        "liveness theorems: weak fairness for every thread's progress steps and a starvation-free (strongly fair) mutex; Monitor: clients do not keep the monitor locked for ever",
         "one atomic step = one POSIX call + the library code up to the next POSIX call (the `signaled` flags are only accessed under the internal mutex)",
         "clients respect the API preconditions: unlock / Monitor::wait only by the lock holder, a Thread object is used by one thread at a time and is not restarted after join",
     ]
@@ -696,7 +701,7 @@ def check(ctx):
         corpus = C.load_corpus(ctx.prop)
         ex.run(corpus)
         # 2. exhaustive schedules of the first `depth` scheduling points
-        depth = 8 if quick else 11
+        depth = 8 if quick else 12
         cap = 1200 if quick else 30000
         nscen = 26 if quick else 60
         scens = [Scen.parse(l) for l in FIXED_SCENARIOS] + [gen_scen(ctx.rng) for _ in range(nscen)]
